@@ -331,6 +331,29 @@ theorem builder_ctors_in_table (n v : Bytes) :
   · exact key ⟨[117, 115, 101, 114, 40], [41], DependencyFlags.SCRIPT_PRE ||| DependencyFlags.SCRIPT_POSTUN, some []⟩ (by decide)
   · exact key ⟨[103, 114, 111, 117, 112, 40], [41], DependencyFlags.SCRIPT_PRE ||| DependencyFlags.SCRIPT_POSTUN, some []⟩ (by decide)
 
+/-- **specification side**: what each constructor name means in rpm's terms — the RPMSENSE_* bits of rpm's `rpmds.h`
+(LESS 2, GREATER 4, EQUAL 8, SCRIPT_PRE 2⁹, SCRIPT_POST 2¹⁰, SCRIPT_PREUN 2¹¹, SCRIPT_POSTUN 2¹², RPMLIB 2²⁴, CONFIG 2²⁸),
+the `rpmlib(…)` / `config(…)` / `user(…)` / `group(…)` name forms, and no version where none is given. Typed here, not scraped. -/
+def standardCtors : List (String × DepCtor) := [
+  ("any", ⟨[], [], 0, some []⟩),
+  ("eq", ⟨[], [], 8, none⟩),
+  ("less", ⟨[], [], 2, none⟩),
+  ("less_eq", ⟨[], [], 2 + 8, none⟩),
+  ("greater", ⟨[], [], 4, none⟩),
+  ("greater_eq", ⟨[], [], 4 + 8, none⟩),
+  ("rpmlib", ⟨[114, 112, 109, 108, 105, 98, 40], [41], 2 ^ 24 + 8, none⟩),
+  ("config", ⟨[99, 111, 110, 102, 105, 103, 40], [41], 2 ^ 28 + 8, none⟩),
+  ("user", ⟨[117, 115, 101, 114, 40], [41], 2 ^ 9 + 2 ^ 12, some []⟩),
+  ("group", ⟨[103, 114, 111, 117, 112, 40], [41], 2 ^ 9 + 2 ^ 12, some []⟩),
+  ("script_pre", ⟨[], [], 2 ^ 9, some []⟩),
+  ("script_post", ⟨[], [], 2 ^ 10, some []⟩),
+  ("script_preun", ⟨[], [], 2 ^ 11, some []⟩),
+  ("script_postun", ⟨[], [], 2 ^ 12, some []⟩)]
+
+/-- every constructor of the source (table regenerated on every run) that bears one of these names has exactly the standard
+name form, flags and version behaviour (constructors added to the source later are not constrained) -/
+theorem dep_ctor_table_standard : ∀ e ∈ standardCtors, e ∈ depCtorNames.zip depCtors := by decide
+
 /-- **a dependency made by constructor `k` and given to the builder is read back with the wrapped name, the version and
 exactly the table's flags**, under whichever of the eight dependency kinds it was added (composition of `dep_ctor_spec`
 with the eight `readback_*` theorems; for provides / requires / recommends the library's own entries follow) -/
